@@ -641,7 +641,11 @@ def family_landweber_rate(ctx, r, exact, n, opaque=False):
             viol(ctx, 'landweber callback count (rate stream) matrix=' + p['opkind'],
                  '{} callbacks in {} iterations'.format(len(log), nit), p, n=nit)
         for k in range(len(e) - 1):
-            if not (np.isfinite(e[k + 1]) and e[k + 1] <= q * e[k] * (1 + 1e-9) + floor):
+            # rounding: x_k and x* carry absolute errors ~ eps (|x_k| + |x*|), i.e. ~ eps |x| sqrt(e) in e;
+            # the bound is TIGHT (equality) when sigma_max = sigma_min, so the slack must cover that
+            rnd = 1e-13 * (1.0 + float(np.linalg.norm(xs)) + float(np.linalg.norm(x0))) * \
+                float(np.sqrt(max(e[k], e[k + 1])))
+            if not (np.isfinite(e[k + 1]) and e[k + 1] <= q * e[k] * (1 + 1e-9) + rnd + floor):
                 viol(ctx, 'landweber error does not contract with the proved factor matrix={} rhs={} {}'.format(
                     p['opkind'], p['gk'], uclass),
                     '|x_{}-x*|^2={} > q |x_{}-x*|^2 = {} * {} (omega={}, sigma_max={}, sigma_min={})'.format(
